@@ -126,6 +126,8 @@ func (do *ObjectContainer) PutItemAwareByName(name string, itemAware IItemAware)
 }
 
 func (do *ObjectContainer) Clone() map[string]IItem {
+	do.mu.RLock()
+	defer do.mu.RUnlock()
 	out := make(map[string]IItem)
 	for name, item := range do.dataObjects {
 		value := item.Get()
